@@ -4,6 +4,7 @@ import NflowsModel.Lemmas.Nonlin
 import NflowsModel.Lemmas.LU
 import NflowsModel.Lemmas.RQBin
 import NflowsModel.Lemmas.RQWhole
+import NflowsModel.Lemmas.RQInverseWhole
 import Mathlib.Analysis.Calculus.FDeriv.Comp
 import Mathlib.LinearAlgebra.Determinant
 /-!
@@ -181,5 +182,12 @@ theorem glu_logdet (D : ℕ) (g : ℝ) : ∑ _i : Fin D, Real.log g = D * Real.l
 
 /-! non-vacuity -/
 example : (0:ℝ) < 1 ∧ (0:ℝ) < 2 ∧ (0:ℝ) < 1/2 ∧ (0:ℝ) ≤ 0.3 ∧ (0.3:ℝ) ≤ 0 + 1 := by norm_num
+
+/-- **End to end, RQ inverse**: inside every open y-bin the derivative of the inverse program's value is `exp` of the
+    log-abs-det the inverse program returns. -/
+theorem rq_program_inverse_logdet (e : Float → ℝ) (c : RQCfg) (uw uh ud : List ℝ) (hv : RQWhole.RQValid e c uw uh ud)
+    (k : ℕ) (hk : k < uw.length) (y : ℝ) (h0 : RQWhole.ys e c uh k < y) (h1 : y < RQWhole.ys e c uh (k+1)) :
+    HasDerivAt (RQInverseWhole.inv e c uw uh ud) (Real.exp (RQInverseWhole.invLd e c uw uh ud y)) y :=
+  RQInverseWhole.inv_hasDerivAt hv k hk y h0 h1
 
 end Properties.C01
